@@ -335,7 +335,7 @@ def edit_histories(ctx, which, quick_n):
     the harness replays them through the public API; Trace_Edits.tla validates every call and the closing emits."""
     q = ctx.quick()
     fams = fam_inputs(ctx, ["calls", "globals", "tables", "memories"])
-    inputs = "dupimp:%d,%s,gen:%d:small,gen:%d:smalln" % (12 if q else 100, fams, 40 if q else 400, 30 if q else 300)
+    inputs = "reffuncexp,dupimp:%d,%s,gen:%d:small,gen:%d:smalln" % (12 if q else 100, fams, 40 if q else 400, 30 if q else 300)
     nsample = quick_n if q else quick_n * 8
     inits = os.path.join(ctx.work, "edit_inits.ndjson")
     wv(["edit-inits", "inputs=" + inputs, "seed=%d" % ctx.seed, "sample=%d" % nsample, "out=" + inits])
